@@ -186,6 +186,17 @@ def make_jobs(ctx, njobs, quick):
     cs = codecs(ctx)
     jobs = []
     k = 0
+    vox = next((c for c in cs if c.kind == "vox"), None)
+    if vox is not None:
+        # anchor: a sine whose envelope climbs from 16 to full scale and back, so that the adaptive step index walks slowly through ALL 49 entries of
+        # the OKI step table with small and large codes at each (noise saturates the index at 48 within a few samples and never sees the middle entries)
+        import math
+        for (tag, n, w) in (("walk", 1600, 0.9), ("walk-slow", 2400, 0.23)):
+            vals = [int(max(-32768, min(32767, 16 * 2048 ** (min(i, n - 1 - i) / (n / 2.0)) * math.sin(i * w)))) & 0xFFFF for i in range(n)]
+            j = Job("%s-c1-n%d-%s-%d" % (vox.name(), n, tag, len(jobs)), vox, 1, 8000, {}, [("s16", "i", n, vals)],
+                    [("r", "s16", "i", 512), ("r", "s32", "i", n - 512 + 6)], "stream")
+            j.partread = True
+            jobs.append(j)
     while len(jobs) < njobs:
         c = cs[k % len(cs)]
         k += 1
